@@ -272,23 +272,27 @@ where
         bit_write: &mut W,
         mut n: u64,
     ) -> Result<(), CopyError<Self::Error, W::Error>> {
-        let from_buffer = Ord::min(n, self.bits_in_buffer as _);
-        // Valid right shift of BB::<WR>::BITS - from_buffer, even when
-        // from_buffer is zero; the result has no bits set at or above
-        // from_buffer
-        let self_buffer_u64: u64 =
-            (self.buffer >> (BB::<WR>::BITS - from_buffer as usize - 1) >> 1_u32).cast();
+        let mut from_buffer = Ord::min(n, self.bits_in_buffer as _) as usize;
+        n -= from_buffer as u64;
 
-        bit_write
-            .write_bits(self_buffer_u64, from_buffer as usize)
-            .map_err(CopyError::WriteError)?;
-        // Remove the copied bits, keeping the bits outside of the valid
-        // window zeroed, as refill() ORs new words into the buffer
-        self.buffer <<= from_buffer as usize;
-        n -= from_buffer;
+        // The buffer might contain more than 64 bits (e.g., with 64-bit words
+        // after a peek), but we can write at most 64 bits at a time
+        while from_buffer > 0 {
+            let chunk = Ord::min(from_buffer, 64);
+            // The result has no bits set at or above chunk
+            let self_buffer_u64: u64 = (self.buffer >> (BB::<WR>::BITS - chunk)).cast();
+
+            bit_write
+                .write_bits(self_buffer_u64, chunk)
+                .map_err(CopyError::WriteError)?;
+            // Remove the copied bits, keeping the bits outside of the valid
+            // window zeroed, as refill() ORs new words into the buffer
+            self.buffer <<= chunk;
+            self.bits_in_buffer -= chunk;
+            from_buffer -= chunk;
+        }
 
         if n == 0 {
-            self.bits_in_buffer -= from_buffer as usize;
             return Ok(());
         }
 
@@ -512,28 +516,35 @@ where
         bit_write: &mut W,
         mut n: u64,
     ) -> Result<(), CopyError<Self::Error, W::Error>> {
-        let from_buffer = Ord::min(n, self.bits_in_buffer as _);
+        let mut from_buffer = Ord::min(n, self.bits_in_buffer as _) as usize;
+        n -= from_buffer as u64;
 
-        #[allow(unused_mut)]
-        let mut self_buffer_u64: u64 = self.buffer.cast();
+        // The buffer might contain more than 64 bits (e.g., with 64-bit words
+        // after a peek), but we can write at most 64 bits at a time
+        while from_buffer > 0 {
+            let chunk = Ord::min(from_buffer, 64);
 
-        #[cfg(feature = "checks")]
-        {
-            // Clean up in case checks are enabled
-            if n < 64 {
-                self_buffer_u64 &= (1_u64 << n) - 1;
+            #[allow(unused_mut)]
+            let mut self_buffer_u64: u64 = self.buffer.cast();
+
+            #[cfg(feature = "checks")]
+            {
+                // Clean up in case checks are enabled
+                if chunk < 64 {
+                    self_buffer_u64 &= (1_u64 << chunk) - 1;
+                }
             }
+
+            bit_write
+                .write_bits(self_buffer_u64, chunk)
+                .map_err(CopyError::WriteError)?;
+
+            self.buffer >>= chunk;
+            self.bits_in_buffer -= chunk;
+            from_buffer -= chunk;
         }
 
-        bit_write
-            .write_bits(self_buffer_u64, from_buffer as usize)
-            .map_err(CopyError::WriteError)?;
-
-        self.buffer >>= from_buffer;
-        n -= from_buffer;
-
         if n == 0 {
-            self.bits_in_buffer -= from_buffer as usize;
             return Ok(());
         }
 
